@@ -43,6 +43,24 @@ LINE = re.compile(r"^(ok|rejected) (\S+) r=(\d+) w=(\d+) p=(\d+) h=(\w+)$")
 CASE = re.compile(r"^case (\S+) r=(\d+) w=(\d+) p=(\d+) h=(\w+)$")
 
 
+def precondition(op, r, w, p):
+    """The documented precondition of an op (the asserts on its arguments, Buffer.h), from the
+    public size observers before the op."""
+    t = op.split()
+    k = t[0]
+    if k == "P":
+        return len(bytes_of_spec(t[1])) <= p
+    if k == "PI":
+        return int(t[1]) <= p
+    if k in ("R", "RS", "UW", "KI", "RI", "RN"):
+        return int(t[1]) <= r
+    if k == "HW":
+        return len(bytes_of_spec(t[1])) <= w
+    if k in ("RU", "FC", "FE"):
+        return 0 <= int(t[1]) <= r
+    return True
+
+
 def oracle(case, lines, extrabuf=65536, cheap=8):
     """The property itself, evaluated on the implementation's output: returns None or
     (op index, message).  Independent of the Coq model (plain Python byte strings)."""
@@ -50,10 +68,12 @@ def oracle(case, lines, extrabuf=65536, cheap=8):
     if not m:
         return (0, "bad case line " + lines[0])
     content, other = b"", b""
-    w_prev, p_prev = int(m.group(3)), int(m.group(4))
-    prepended = False
-    if int(m.group(2)) != 0 or p_prev < cheap:
+    r_prev, w_prev, p_prev = int(m.group(2)), int(m.group(3)), int(m.group(4))
+    prep = [False, False]      # has the caller used the prepend area of (first, second) buffer
+    if r_prev != 0 or p_prev < cheap:
         return (0, "fresh buffer: readable!=0 or prependable<%d" % cheap)
+    if w_prev != int(case.header.split()[0]) or p_prev != cheap:
+        return (0, "fresh buffer: writable != initial size or prependable != kCheapPrepend")
     for i, op in enumerate(case.ops):
         if i + 1 >= len(lines):
             return (i, "missing output")
@@ -64,18 +84,26 @@ def oracle(case, lines, extrabuf=65536, cheap=8):
         t = op.split()
         k = t[0]
         exp_out = "-"
+        pre = precondition(op, r_prev, w_prev, p_prev)
+        if (status == "ok") != pre:
+            return (i, "op %r was %s although its documented precondition %s (r=%d w=%d p=%d before)"
+                    % (op, status, "holds" if pre else "fails", r_prev, w_prev, p_prev))
         if status == "rejected":
             # a rejected op must leave everything unchanged
-            if r != len(content) or h != fnv(content):
-                return (i, "rejected op changed the content")
-            w_prev, p_prev = w, p
+            if (r, w, p) != (r_prev, w_prev, p_prev) or h != fnv(content):
+                return (i, "rejected op changed the buffer")
             continue
+        unchanged = False
         if k == "A":
             content += bytes_of_spec(t[1])
         elif k == "P":
             content = bytes_of_spec(t[1]) + content
-            prepended = True
+            prep[0] = True
         elif k == "R":
+            content = content[int(t[1]):]
+        elif k == "RU":
+            content = content[int(t[1]):]
+        elif k == "RN":
             content = content[int(t[1]):]
         elif k == "RA":
             content = b""
@@ -83,6 +111,15 @@ def oracle(case, lines, extrabuf=65536, cheap=8):
             n = int(t[1])
             exp_out = "b:%s:%d" % (fnv(content[:n]), n)
             content = content[n:]
+        elif k == "RAS":
+            exp_out = "b:%s:%d" % (fnv(content), len(content))
+            content = b""
+        elif k == "TS":
+            exp_out = "b:%s:%d" % (fnv(content), len(content))
+            unchanged = True
+        elif k == "IC":
+            exp_out = str(p + r + w)       # capacity() >= size() = prependable + readable + writable
+            unchanged = True
         elif k in ("EW", "SH"):
             pass
         elif k == "HW":
@@ -91,13 +128,23 @@ def oracle(case, lines, extrabuf=65536, cheap=8):
             content = content[:len(content) - int(t[1])]
         elif k == "SW":
             content, other = other, content
-            prepended = True   # the other buffer's history is not tracked by this simple rule
+            prep.reverse()
+        elif k == "AS":
+            other = content
+            prep[1] = prep[0]
+            unchanged = True
         elif k == "RF":
             avail = bytes_of_spec(t[1])
-            cap = w_prev + extrabuf if w_prev < extrabuf else w_prev
+            cnt = 2 if w_prev < extrabuf else 1
+            cap = w_prev + extrabuf if cnt == 2 else w_prev
             n = min(len(avail), cap)
-            exp_out = str(n)
+            exp_out = "rd:%d:%d:%d:-:cap=%d" % (n, cnt, w_prev, cap)
             content += avail[:n]
+        elif k == "RFE":
+            cnt = 2 if w_prev < extrabuf else 1
+            cap = w_prev + extrabuf if cnt == 2 else w_prev
+            exp_out = "rd:-1:%d:%d:%d:cap=%d" % (cnt, w_prev, int(t[1]), cap)
+            unchanged = True
         elif k in ("AI", "PI"):
             kk, x = int(t[1]), int(t[2])
             enc = (x % (1 << (8 * kk))).to_bytes(kk, "big")
@@ -105,27 +152,34 @@ def oracle(case, lines, extrabuf=65536, cheap=8):
                 content += enc
             else:
                 content = enc + content
-                prepended = True
+                prep[0] = True
         elif k in ("KI", "RI"):
             kk = int(t[1])
             exp_out = "i:%d" % int.from_bytes(content[:kk], "big", signed=True)
             if k == "RI":
                 content = content[kk:]
-        elif k in ("FC", "FE"):
-            fr = int(t[1])
-            pos = content.find(b"\r\n" if k == "FC" else b"\n", fr)
+            else:
+                unchanged = True
+        elif k in ("FC", "FE", "FC0", "FE0"):
+            fr = int(t[1]) if len(t) > 1 else 0
+            pos = content.find(b"\r\n" if k.startswith("FC") else b"\n", fr)
             exp_out = "none" if pos < 0 else "at:%d" % pos
+            unchanged = True
+        else:
+            return (i, "oracle does not know op %r" % op)
         if out != exp_out:
             return (i, "op %r returned %s, FIFO semantics require %s" % (op, out, exp_out))
         if r != len(content):
             return (i, "after %r readableBytes=%d, FIFO content has %d bytes" % (op, r, len(content)))
         if h != fnv(content):
             return (i, "after %r the readable content differs from the FIFO content (%d bytes)" % (op, r))
+        if unchanged and (r, w, p) != (r_prev, w_prev, p_prev):
+            return (i, "observer / failed read %r changed the sizes: r,w,p %s -> %s" % (op, (r_prev, w_prev, p_prev), (r, w, p)))
         if k == "EW" and w < int(t[1]):
             return (i, "ensureWritableBytes(%s) left writableBytes=%d" % (t[1], w))
-        if not prepended and p < cheap:
+        if not prep[0] and p < cheap:
             return (i, "prependableBytes=%d < %d although the caller never prepended" % (p, cheap))
-        w_prev, p_prev = w, p
+        r_prev, w_prev, p_prev = r, w, p
     return None
 
 
@@ -143,7 +197,8 @@ def alphabet():
         ops.append("R %d" % n)
     ops += ["RA", "RS 3", "RS 16", "EW 0", "EW 9", "EW 25", "EW 64", "HW @5:9", "HW @24:2", "UW 1", "UW 8",
             "SH 0", "SH 7", "SW", "RF -", "RF @7:5", "RF @40:6", "AI 4 -2", "AI 8 1311768467294899695",
-            "PI 2 -32768", "PI 8 -1", "KI 4", "RI 2", "RI 8", "FC 0", "FC 3", "FE 0", "FE 2", "A 0d0a", "A 0a0d0a"]
+            "PI 2 -32768", "PI 8 -1", "KI 4", "RI 2", "RI 8", "FC 0", "FC 3", "FE 0", "FE 2", "A 0d0a", "A 0a0d0a",
+            "RU 0", "RU 3", "RU -1", "RN 4", "RN 1", "RAS", "TS", "IC", "AS", "RFE 11", "RFE 9", "FC0", "FE0", "FC -1", "KI 1", "AI 1 -128"]
     return ops
 
 
@@ -170,11 +225,13 @@ def gen_random(rng, count, maxlen, model, prefix="r"):
     readFd spill, prepend exactly the available space)."""
     stats = {}
     for ci in range(count):
-        i1 = rng.choice([0, 1, 8, 16, 24, 40, 64, 100] * 10 + [1024] * 10 + [70000] * 2)
+        # 65535/65536/65537: the iovcnt test of readFd (writable < sizeof extrabuf) on a fresh buffer
+        i1 = rng.choice([0, 1, 8, 16, 24, 40, 64, 100] * 10 + [1024] * 10 + [70000] * 2 + [65535, 65536, 65537])
         i2 = rng.choice([0, 16, 1024])
         model.send("case %s%d %d %d" % (prefix, ci, i1, i2))
         st = model.state()
         ops = []
+        mlines = [model.last]
         ln = rng.randint(1, maxlen)
         for _ in range(ln):
             r, w, p = st
@@ -182,7 +239,8 @@ def gen_random(rng, count, maxlen, model, prefix="r"):
                 c = [x, x, x + 1, max(0, x - 1), x // 2, 0, 1, rng.choice(BOUNDARY), rng.randint(0, max(1, 2 * x + 8))]
                 return max(0, rng.choice(c))
             kind = rng.choice(["A", "A", "A", "P", "R", "R", "RA", "RS", "EW", "HW", "UW", "SH", "SW", "RF", "RF",
-                               "AI", "PI", "KI", "RI", "FC", "FE", "CRLF"])
+                               "AI", "PI", "KI", "RI", "FC", "FE", "CRLF", "RU", "RN", "RAS", "TS", "IC", "AS", "RFE",
+                               "FC0", "FE0"])
             if kind == "A":
                 n = rng.choice([near(w), near(w + p - 8), rng.choice(BOUNDARY), rng.randint(0, 64)])
                 op = "A @%d:%d" % (n, rng.randint(1, 1 << 30))
@@ -190,10 +248,18 @@ def gen_random(rng, count, maxlen, model, prefix="r"):
                 op = "P @%d:%d" % (near(p), rng.randint(1, 1 << 30))
             elif kind in ("R", "RS", "UW"):
                 op = "%s %d" % (kind, near(r))
-            elif kind == "RA":
-                op = "RA"
+            elif kind == "RU":
+                op = "RU %d" % rng.choice([near(r), near(r), -1, 0, r, r + 1])
+            elif kind == "RN":
+                op = "RN %d" % rng.choice([1, 2, 4, 8])
+            elif kind in ("RA", "RAS", "TS", "IC", "AS", "FC0", "FE0"):
+                op = kind
+            elif kind == "RFE":
+                op = "RFE %d" % rng.choice([11, 9, 4, 104])
             elif kind == "EW":
-                op = "EW %d" % rng.choice([near(w), near(w + p - 8), near(w + p), rng.choice(BOUNDARY)])
+                # w + p - 8 is exactly the grow-vs-compact boundary of makeSpace; w the boundary of ensureWritableBytes
+                op = "EW %d" % rng.choice([near(w), w + 1, w + p - 8 if w + p >= 8 else 0, w + p - 7 if w + p >= 7 else 0,
+                                           near(w + p - 8), near(w + p), rng.choice(BOUNDARY)])
             elif kind == "HW":
                 op = "HW @%d:%d" % (near(w), rng.randint(1, 1 << 30))
             elif kind == "SH":
@@ -202,7 +268,7 @@ def gen_random(rng, count, maxlen, model, prefix="r"):
                 op = "SW"
             elif kind == "RF":
                 cap = w + 65536 if w < 65536 else w
-                n = rng.choice([0, 1, near(w), near(w), near(cap), near(w + 65535), rng.randint(0, 200)])
+                n = rng.choice([0, 1, near(w), near(w), w, w + 1, cap, cap + 1, max(0, cap - 1), near(w + 65535), rng.randint(0, 200)])
                 n = min(n, 300000)
                 op = "RF @%d:%d" % (n, rng.randint(1, 1 << 30))
             elif kind in ("AI", "PI"):
@@ -213,23 +279,28 @@ def gen_random(rng, count, maxlen, model, prefix="r"):
             elif kind in ("KI", "RI"):
                 op = "%s %d" % (kind, rng.choice([1, 2, 4, 8]))
             elif kind in ("FC", "FE"):
-                op = "%s %d" % (kind, near(r) if rng.random() < 0.5 else 0)
+                op = "%s %d" % (kind, rng.choice([near(r), near(r), 0, 0, -1, r, r + 1, max(0, r - 1)]))
             else:
                 op = "A " + rng.choice(["0d0a", "0a", "0d", "410d0a42", "0d0d0a", "0a0d"])
             ops.append(op)
             model.send(op)
             ln_out = model.readline()
+            mlines.append(ln_out)
             mm = LINE.match(ln_out)
             if mm:
                 st = (int(mm.group(3)), int(mm.group(4)), int(mm.group(5)))
             stats[kind] = stats.get(kind, 0) + 1
         model.send("end")
-        model.readline()
+        mlines.append(model.readline())
+        MODEL_LINES["%s%d" % (prefix, ci)] = mlines     # the model's own trace of this case: not run a second time
         yield vlib.Case("%s%d" % (prefix, ci), "%d %d" % (i1, i2), ops, "random-adaptive")
     st0 = getattr(gen_random, "stats", {})
     for k, v in stats.items():
         st0[k] = st0.get(k, 0) + v
     gen_random.stats = st0
+
+
+MODEL_LINES = {}
 
 
 class ModelProc:
@@ -295,8 +366,14 @@ def nontrivial_signature(case, lines):
         k = op.split()[0]
         if k in ("A", "EW", "HW", "AI") and prev_w is not None and w > prev_w:
             ev.add("space-made")
-        if k == "RF" and mm.group(2).isdigit() and prev_w is not None and int(mm.group(2)) > prev_w:
-            ev.add("spill")
+        if k in ("RF", "RFE") and mm.group(2).startswith("rd:"):
+            f = mm.group(2).split(":")
+            if prev_w is not None and int(f[1]) > prev_w:
+                ev.add("spill")
+            if f[2] == "1":
+                ev.add("single-iovec")
+            if k == "RFE":
+                ev.add("read-error")
         if k in ("P", "PI") and mm.group(1) == "ok":
             ev.add("prepend")
         if mm.group(1) == "rejected":
@@ -309,7 +386,7 @@ def run(chk, replay=None):
     tier, rng = chk.tier, chk.rng
     pr = chk.prove()
     model = vlib.build_model("C10")
-    impl = vlib.build_driver("C10_driver", ["C10_driver.cc"], variant="asan")
+    impl = vlib.build_driver("C10_driver", ["C10_driver.cc"], variant="asan", wrap=["readv"])
     consts = open(os.path.join(vlib.COQ, "Gen_Consts.v")).read()
     def cget(n, d):
         m = re.search(r"Definition %s : Z := \((-?\d+)\)" % n, consts)
@@ -323,8 +400,8 @@ def run(chk, replay=None):
         cases += load_corpus("C10")
         if tier == "quick":
             cases += list(gen_exhaustive(2, [(16, 0), (0, 0)]))
-            cases += list(gen_exhaustive(3, [(16, 8)], limit=0.04, rng=rng))
-            nrand, maxlen = 1200, 30
+            cases += list(gen_exhaustive(3, [(16, 8)], limit=0.015, rng=rng))
+            nrand, maxlen = 1080, 30
         else:
             cases += list(gen_exhaustive(2, [(16, 0), (0, 0), (1, 1), (1024, 16)]))
             cases += list(gen_exhaustive(3, [(16, 8), (0, 0)]))
@@ -348,7 +425,9 @@ def run(chk, replay=None):
     t1 = time.time()
     impl_out, crashes = vlib.run_batch_parallel(impl, cases, timeout=3000)
     t2 = time.time()
-    model_out, mcrashes = vlib.run_batch_parallel(model, cases, timeout=3000, pre=["bash", "-c", 'ulimit -s unlimited 2>/dev/null; exec "$0"'])
+    model_out, mcrashes = vlib.run_batch_parallel(model, [c for c in cases if c.cid not in MODEL_LINES], timeout=3000,
+                                                  pre=["bash", "-c", 'ulimit -s unlimited 2>/dev/null; exec "$0"'])
+    model_out.update(MODEL_LINES)
 
     t3 = time.time()
     chk.cov["phase_s"] = {"generate": round(t1 - chk.t0 - pr["wall_s"], 1), "impl": round(t2 - t1, 1), "model": round(t3 - t2, 1)}
@@ -380,14 +459,16 @@ def run(chk, replay=None):
             chk.sample({"case": c.text().split("\n")[:-1], "impl_last": li[-2] if len(li) > 1 else "", "events": sorted(ev)})
     chk.cov["distinct_nontrivial"] = len(sigs)
     chk.cov["rule"] = ("corpus + exhaustive op sequences over a %d-op boundary alphabet + adaptive random sequences (sizes relative to "
-                       "current readable/writable/prependable); non-trivial = reaches makeSpace (grow or compact), the readFd spill, a "
-                       "prepend or a rejected precondition; distinct by (op-kind sequence, events, final observer line)" % len(alphabet()))
+                       "current readable/writable/prependable); non-trivial = reaches makeSpace (grow or compact), the readFd spill, the "
+                       "single-iovec readFd, a failed readv, a prepend or a rejected precondition; distinct by (op-kind sequence, events, final observer line)" % len(alphabet()))
     chk.cov["traces_validated_against_impl"] = len(cases) - len(corr_bad)
     chk.add_obligation("correspondence: extracted C10_Model.step == muduo::net::Buffer on every case (all observers after every op)", not corr_bad)
     chk.add_obligation("oracle: FIFO semantics on the implementation's own outputs", not oracle_bad)
     chk.trusted("extraction: ExtrOcamlBasic only; extract/util.ml + extract/C10_driver.ml (OCaml 4.13.1)",
-                "harness/C10_driver.cc (guards documented preconditions on public observers), pipe(2)+readv for readFd",
-                "translator lib/gen_consts.py (clang 14 JSON AST) for kCheapPrepend/kInitialSize/extrabuf size",
+                "harness/C10_driver.cc (guards documented preconditions on public observers), pipe(2)+readv for readFd, "
+                "readv interposed with -Wl,--wrap to record the offered iovecs and to inject errno",
+                "translators lib/gen_consts.py (kCheapPrepend/kInitialSize/extrabuf size) and lib/gen_C10.py (every comparison, "
+                "assertion, index assignment and size argument of Buffer.h/.cc) over the clang 14 JSON AST; lib/cxxast.py",
                 "std::vector growth, memcpy/std::copy/std::search/memchr themselves (ASan watches their ranges)")
 
     def shrink(c, pred):
